@@ -148,6 +148,43 @@ def _normalise_idioms(d):
                               "trait": "core::convert::TryInto", "self_ty": src, "was_try_from": True})
 
 
+def _relocate_moved_items(text, d):
+    """items of the pinned tree that were moved to another module: filed under their pinned path again (textual substitution
+    on the fact file, like the flattening of private nested modules); None if nothing moved"""
+    import re
+    from spec.pinned_items import PINNED
+    cur = {
+        "fns": {k for k, f in d["fns"].items() if f.get("kind") == "Fn" and "{" not in k and not k.startswith("<")},
+        "adts": set(d["adts"]),
+        "traits": set(d["traits"]),
+        "consts": {k for k, f in d["fns"].items() if f.get("kind") in ("Const", "Static") and "{" not in k and not k.startswith("<")},
+    }
+    subs = []
+    for kind, paths in PINNED.items():
+        pinned = set(paths)
+        for P in paths:
+            if P in cur[kind]:
+                continue
+            name = P.rsplit("::", 1)[-1]
+            cands = [q for q in cur[kind] if q.rsplit("::", 1)[-1] == name and q not in pinned
+                     and not q.startswith(("core::", "alloc::", "ciborium::", "std::"))]
+            if len(cands) == 1:
+                subs.append((cands[0], P))
+    if not subs:
+        return None
+    out = text
+    for q, P in sorted(subs, key=lambda x: -len(x[0])):
+        out = re.sub(r"(?<![A-Za-z0-9_:])" + re.escape(q) + r"(?![A-Za-z0-9_])", P, out)
+    try:
+        d2 = json.loads(out)
+    except ValueError:
+        return None
+    if not all(len(d2[k]) == len(d[k]) for k in ("fns", "adts", "traits", "instances")):
+        return None         # a substitution made two items collide: leave the facts as they are
+    d2.setdefault("meta", {})["relocated_items"] = [list(x) for x in subs]
+    return json.dumps(d2)
+
+
 def _single_impl_traits(d):
     """A crate-private trait with exactly one impl (util::ValueTryAs for Value): a provided method of the trait that the impl does
     not override IS that impl's method (`Self` can only be the one type).  Its body is filed under the impl's name and calls of
@@ -218,6 +255,10 @@ class Program:
                 if all(len(d2[k]) == len(self.d[k]) for k in ("fns", "adts", "traits", "instances")):
                     text, self.d = flat, d2
                     self.flattened_modules.append(m)
+            if flatten:
+                text2 = _relocate_moved_items(text, self.d)
+                if text2 is not None:
+                    text, self.d = text2, json.loads(text2)
         self.meta = self.d["meta"]
         if expect_nonce is not None and self.meta.get("nonce") != expect_nonce:
             raise FactsError("stale fact file: nonce %r != expected %r" % (self.meta.get("nonce"), expect_nonce))
